@@ -251,3 +251,36 @@ reg("C17", [
     "&str arguments are assumed to be valid UTF-8 (a Rust type invariant)",
     "for the suffix algebra labels are single symbolic bytes: the functions compare labels only through Label equality",
 ])
+
+_MDNS_FUNCS = ["simple_mdns::build_reply", "ResourceRecordManager::{new,add_authoritative_resource,add_cached_resource,remove_resource_record,clear,get_domain_resources}",
+               "resource_record_manager::get_key", "DomainResourceFilter::{authoritative,cached,all,match_filter}", "ExpirationInfo::new",
+               "ResourceRecord::{match_qtype,match_qclass,eq,hash,clone}", "Name::get_labels", "Label::{len,as_bytes}",
+               "radix_trie::Trie (model)", "HashMap/HashSet (model)", "Instant/Duration (monotone symbolic clock model)"]
+reg("C13", [
+    M("C13", "key", "mdns_store", "all 49 ordered pairs of names from a pool of 7 names (0..3 labels) over 5 shared symbolic labels of 1-2 bytes: "
+      "get_key prefix/equality vs label-wise subdomain/equality, for all label byte values", _MDNS_FUNCS, params={'part': 'key'}),
+    M("C13", "reply", "mdns_store", "11 (quick) / 15 (thorough) store+query scenarios: 0-3 registered records (authoritative/cached; A, SRV, TXT; "
+      "class IN/CH symbolic) over the name pool incl. a.b vs ab and x vs xy collisions, 0-2 questions (TYPE/ANY x IN/ANY, unicast bit symbolic); "
+      "all label bytes, addresses, ports, TTLs, ids symbolic", _MDNS_FUNCS, params={'part': 'reply'}),
+], [
+    "HashMap/HashSet iteration order is fixed to insertion order in these obligations (the statement is about sets of records)",
+    "radix_trie::Trie::subtrie is modelled from the crate source: Some only if a node exists at the key (stored key or byte-aligned branch)",
+])
+reg("C20", [
+    M("C20", "expiry", "mdns_store", "9 (quick) / 14 (thorough) histories of <=3 operations {add-authoritative, add-cached, re-add with other TTL/flush, "
+      "remove, clear} on one record key, TTLs and cache-flush bits symbolic (all 2^32 TTLs), monotone symbolic clock; queried with the 4 filters",
+      _MDNS_FUNCS, params={'part': 'expiry'}),
+], [
+    "the clock is a solver variable: Instant::now() returns an arbitrary non-decreasing instant < 2^61 ns; real sleeping is not modelled",
+    "one record key per history (the store keeps records in independent buckets; cross-record interference is covered by C13.reply scenarios)",
+])
+
+reg("C05", [
+    M("C05", "framing", "rr_framing",
+      "header | record1 | A-record: record1 of each of the 42 parser entries (+unknown type), RDLENGTH 0..6 (quick) / 0..9 (thorough), "
+      "all RDATA bytes / class / TTLs / id symbolic; messages cut 1,2,5 bytes short; names inside RDATA = Name::parse contract stub",
+      ["Packet::parse", "Packet::parse_section", "ResourceRecord::parse", "RData::parse", "parse_rdata", "typed RDATA parsers", "Name::parse (owner names)"]),
+], [
+    "record 2 is an A record with root owner; its position is computed by an RFC 1035 envelope walker (12 + 11 + RDLENGTH)",
+    "names inside RDATA are abstracted by the Name::parse contract (discharged by C06.contract); OPT is excluded (it is lifted out of the section, see C09)",
+])
